@@ -54,6 +54,7 @@ def main():
     ap.add_argument("--out", default=None)
     ap.add_argument("--no-exclude", action="store_true")
     ap.add_argument("--only-excluded", action="store_true")
+    ap.add_argument("--genx", nargs=2, type=int, default=None)
     ap.add_argument("--sub", action="store_true",
                     help="soak the fixed sub-sample #s1 of each workload")
     ap.add_argument("--nproc", type=int, default=None)
@@ -79,6 +80,12 @@ def main():
                 excluded[ex] = excluded.get(ex, 0) + 1
                 continue
             wids.append(f"gen:{i}")
+    if a.genx:
+        for i in range(a.genx[0], a.genx[1]):
+            ex = gen_defs.excluded_by(gen_defs.genx_def(i))
+            if a.only_excluded != bool(ex) and not a.no_exclude:
+                continue
+            wids.append(f"genx:{i}")
     if a.sub:
         wids = [w + "#s1" for w in wids]
     units = [grid.learn_unit(w, s) for w in wids for s in sids]
